@@ -69,6 +69,8 @@ class XonshCallMakerVisitor(PythonCallMakerVisitor):
             or (any(len(a.items) > 1 for a in node.alts))
             # the argument of expect_forced(...) would be evaluated while the argument tuple is built
             or (any(isinstance(a.items[0].item, Forced) for a in node.alts))
+            # an alternative that calls an invalid_ rule is guarded by self.call_invalid_rules
+            or (any(self.gen.invalidvisitor.visit(a) for a in node.alts))
         ):
             return None
         alt_funcs = itertools.chain.from_iterable(a.items for a in node.alts)
